@@ -430,6 +430,55 @@ def c_stream(ctx, case):
     streams.each(ctx, stream_rows(seed, n, shape), judge)
 
 
+@check("C11.recover")
+def c_recover(ctx, case):
+    """One rewrite object (a distributor, the two folders, a flattener, a term collector) is
+    handed an input it FAILS on (a floor division among the terms, a division by the constant
+    zero, a foreign object), the caller catches the error, and carries on with valid input:
+    the same object gives what a fresh one gives."""
+    which, seed = case
+    from pymbolic.mapper.collector import TermCollector
+    mk = {"distribute": DistributeMapper, "fold": ConstantFoldingMapper,
+          "commutative-fold": CommutativeConstantFoldingMapper, "flatten": FlattenMapper,
+          "collect": TermCollector}[which]
+    x, y, z = V
+    rng = ctx.sub_rng("recover", seed)
+    valid = [p.Sum((p.Power(p.Sum((x, 1)), 2), p.Product((p.Sum((x, y)), p.Sum((x, p.Product((-1, y)))))))),
+             p.Product((p.Sum((x, 2)), p.Sum((y, 3)), 2)), p.Sum((p.Product((2, x)), p.Product((3, x)), y, 4, 5)),
+             gexpand(rng, 3), gexpand(rng, 2)]
+    valid = [e for e in valid if isinstance(e, p.Expression)]
+    bad = [p.Sum((x, p.FloorDiv(x, 2))), p.Sum((x, p.Quotient(1, 0))), p.Sum((x, p.Product((y, object())))),
+           p.Product((p.Sum((x, 1)), p.Sum((y, p.Remainder(x, 0))))), p.Power(p.Sum((x, "s")), 2)]
+    m = mk()
+    for rnd in range(2):
+        for b in bad:
+            try:
+                m(b)
+            except RecursionError:
+                raise
+            except Exception:  # noqa: BLE001
+                ctx.count("failed_rewrites_before_valid_ones")
+            for e in valid:
+                ctx.case(None)
+                ctx.count("rewrites_after_a_caught_failure")
+                got = outcome_of(lambda: m(e))
+                want = outcome_of(lambda: mk()(e))
+                if got[0] != want[0] or (got[0] == "v" and not normal.typed_eq(got[1], want[1])):
+                    ctx.fail("C11.recover", case, f"recover:{which}",
+                             f"one {which} object after failing on {G.src(b)} (caught): {e} becomes "
+                             f"{short(got)}; a fresh object gives {short(want)}")
+                    return
+
+
+def outcome_of(f):
+    try:
+        return ("v", f())
+    except RecursionError:
+        raise
+    except Exception as ex:  # noqa: BLE001
+        return ("exc", type(ex).__name__)
+
+
 @check("C11.collect")
 def c_collect(ctx, case):
     e, params = case
@@ -634,6 +683,11 @@ def workload(ctx):
                     ctx.count("power_order_shapes")
                     ctx.run("C11.expand", (e, False))
                     ctx.run("C11.expand", (p.Product((p.Power(base, order[0]), p.Sum((p.Power(base, order[1]), 1)))), False))
+        for which in ("distribute", "fold", "commutative-fold", "flatten", "collect"):
+            for sd in range(3):
+                if ctx.mine("recover"):
+                    ctx.case(("recover", which, sd), True, n=0)
+                    ctx.run("C11.recover", (which, sd))
         # sharing: ONE operand object more than once in the operand list, directly and nested
         for si, s_ in enumerate((p.Sum((x, y)), p.Sum((x, 2)), p.Product((x, y)), p.Product((2, x)),
                                  p.Power(p.Sum((x, 1)), 2), p.Sum((p.Sum((x, y)), 1)),
@@ -744,6 +798,7 @@ def workload(ctx):
         ctx.count("handler:TermCollector.split_term", tr.counts.get("TermCollector.split_term", 0))
     ctx.floor("wide_nodes", 100)
     ctx.floor("operand_list_calls", 150)
+    ctx.floor("rewrites_after_a_caught_failure", 300)
     ctx.floor("shared_node_trees", 150)
     ctx.floor("power_order_shapes", 15)
     ctx.floor("kind_values", 800)
